@@ -150,9 +150,10 @@ pub fn bench(options: TokenStream, item: TokenStream) -> TokenStream {
     // Prefixed with "__" to prevent IDEs from recommending using this symbol.
     //
     // The static is local to intentionally cause a compile error if this
-    // attribute is used multiple times on the same function.
+    // attribute is used multiple times on the same function. The function name
+    // is kept as written because names may differ only by case.
     let static_ident = syn::Ident::new(
-        &format!("__DIVAN_BENCH_{}", fn_name_pretty.to_uppercase()),
+        &format!("__DIVAN_BENCH_{fn_name_pretty}"),
         fn_ident.span(),
     );
 
@@ -230,7 +231,7 @@ pub fn bench(options: TokenStream, item: TokenStream) -> TokenStream {
                 }
 
                 quote! {
-                    #bench_entry_runner::Plain(|divan /* Bencher */| divan.bench(#fn_expr))
+                    #bench_entry_runner::Plain(|__divan_bencher| __divan_bencher.bench(#fn_expr))
                 }
             }
 
@@ -242,7 +243,7 @@ pub fn bench(options: TokenStream, item: TokenStream) -> TokenStream {
             (1, None) => {
                 // Wrap in Rust ABI.
                 if is_extern_abi {
-                    fn_expr = quote! { |divan /* Bencher */| #fn_expr(divan) };
+                    fn_expr = quote! { |__divan_bencher| #fn_expr(__divan_bencher) };
                 }
 
                 quote! { #bench_entry_runner::Plain(#fn_expr) }
@@ -255,7 +256,7 @@ pub fn bench(options: TokenStream, item: TokenStream) -> TokenStream {
 
                     |arg| #private_mod::ToStringHelper(arg).to_string(),
 
-                    |divan, __divan_arg| divan.bench(|| #fn_expr(
+                    |__divan_bencher, __divan_arg| __divan_bencher.bench(|| #fn_expr(
                         #private_mod::Arg::<#last_arg_type_tokens>::get(__divan_arg)
                     )),
                 ))
@@ -268,8 +269,8 @@ pub fn bench(options: TokenStream, item: TokenStream) -> TokenStream {
 
                     |arg| #private_mod::ToStringHelper(arg).to_string(),
 
-                    |divan, __divan_arg| #fn_expr(
-                        divan,
+                    |__divan_bencher, __divan_arg| #fn_expr(
+                        __divan_bencher,
                         #private_mod::Arg::<#last_arg_type_tokens>::get(__divan_arg),
                     ),
                 ))
@@ -306,6 +307,7 @@ pub fn bench(options: TokenStream, item: TokenStream) -> TokenStream {
             #unsupported_error
 
             // Push this static into `GROUP_ENTRIES` before `main` is called.
+            #[allow(non_upper_case_globals)]
             static #static_ident: #private_mod::GroupEntry = {
                 {
                     // Add `push` to the initializer section.
@@ -399,6 +401,7 @@ pub fn bench(options: TokenStream, item: TokenStream) -> TokenStream {
                 quote! {
                     // Push this static into `BENCH_ENTRIES` before `main` is
                     // called.
+                    #[allow(non_upper_case_globals)]
                     static #static_ident: #private_mod::BenchEntry = {
                         {
                             // Add `push` to the initializer section.
@@ -547,9 +550,10 @@ pub fn bench_group(options: TokenStream, item: TokenStream) -> TokenStream {
     // Prefixed with "__" to prevent IDEs from recommending using this symbol.
     //
     // By having the static be local, we cause a compile error if this attribute
-    // is used multiple times on the same function.
+    // is used multiple times on the same function. The module name is kept as
+    // written because names may differ only by case.
     let static_ident = syn::Ident::new(
-        &format!("__DIVAN_GROUP_{}", mod_name_pretty.to_uppercase()),
+        &format!("__DIVAN_GROUP_{mod_name_pretty}"),
         mod_ident.span(),
     );
 
@@ -562,6 +566,7 @@ pub fn bench_group(options: TokenStream, item: TokenStream) -> TokenStream {
         #unsupported_error
 
         // Push this static into `GROUP_ENTRIES` before `main` is called.
+        #[allow(non_upper_case_globals)]
         static #static_ident: #private_mod::EntryList<#private_mod::GroupEntry> = {
             {
                 // Add `push` to the initializer section.
@@ -574,6 +579,7 @@ pub fn bench_group(options: TokenStream, item: TokenStream) -> TokenStream {
             }
 
             #private_mod::EntryList::new({
+                #[allow(non_upper_case_globals)]
                 static #static_ident: #private_mod::GroupEntry = #private_mod::GroupEntry {
                     meta: #meta,
                     generic_benches: #option_none,
